@@ -73,11 +73,14 @@ PROPS["C05"] = {
 PROPS["C06"] = {
     "kani": ["c06_face", "dec_sgr", "dec_payload", "c05_encoder"],
     "verus": ["ttywriter"],
-    "technique": "Kani/CBMC full-domain harnesses: attribute set algebra, FaceModify::apply against SGR semantics, sgr_color; sgr_face against a reference SGR interpreter on parameter templates (bounded)",
+    "technique": "Kani/CBMC full-domain harnesses: attribute set algebra, FaceModify::apply against SGR semantics, sgr_color; sgr_face against a reference SGR interpreter on parameter templates (bounded); Verus contract with ghost logs on the escape-sequence cell writer's forwarding loop",
     "level_text": "Proved (Kani, complete): FaceAttrs pack/unpack/insert/remove/contains and all six bit operators agree with the (underline style, 5 flags) view for all pairs; "
                   "FaceModify::apply(m, f) sets/clears every colour and attribute independently and reset restores the default face for every m x f; sgr_color decodes every colour form and consumes exactly its own parameters; "
                   "sgr_face equals a reference SGR interpreter (later overrides earlier, 0/empty resets, colon forms, unknown codes ignored) for every numeric value on "
-                  "~45 parameter templates (bounded stand-ins); FaceModify without colours is encoded with exactly the standard codes on fixed cases (bounded stand-ins). Encoder->decoder round trip of colours passes through core::fmt and the DFA: NOT decided end to end.",
+                  "~45 parameter templates (bounded stand-ins); FaceModify without colours is encoded with exactly the standard codes on fixed cases (bounded stand-ins); Face / FaceModify colours go to the colour encoder each in its own role and order (complete in the colour values). "
+                  "Proved (Verus, unit ttywriter, any byte string and any escape-sequence decoder that makes progress): TTYCellWriter::write forwards every decoded command in order - characters are put with the face current at that moment, "
+                  "every SGR change is applied ON TOP of the parent's current face (FaceModify::apply) and becomes the current face, images are put as they are, all other commands are ignored; the loop terminates. "
+                  "Encoder->decoder round trip of colours passes through core::fmt and the DFA: NOT decided end to end.",
     "level_note": "Assumed: TTYCommandDecoder (DFA; in unit ttywriter any decoder with a ghost log of what it decoded), TerminalCommand reduced to its three drawing variants plus a catch-all there (N18), core::fmt rendering of colour components; SGR codes FaceModify cannot express (7/27, 39/49/59, 2/8) and the ambiguous 21 are outside the compared domain.",
     "assumptions": [
         "reference SGR interpreter transcribed from ECMA-48/xterm/kitty; inputs it marks undefined (codes FaceModify cannot express, 21, malformed colour forms) are not compared",
